@@ -64,7 +64,7 @@ class C02(nestedcheck.NestedCheck):
         NStream('5-states', enum=layer(5, 4), thorough=(64, 420), others=1, tiers=('thorough',)),
         NStream('6-states', enum=layer(6, 100), thorough=(64, 210), others=1, tiers=('thorough',)),
     )
-    theorems = ('TM.C02_inv_of_check', 'TM.C02_init', 'TM.C02_step_partial', 'TM.C02_step_clean', 'TM.C02_regression_stale_source', 'TM.C02_step_counterexample_run', 'TM.C02_step_counterexample', 'TM.C02_history', 'TM.C02_history_queued', 'TM.C02_step_exclusive', 'TM.C02_step_regions', 'TM.C02_history_regions', 'TM.C02_resolve_order', 'TM.C02_exit_children_first', 'TM.C02_enter_parents_first', 'TM.C02_entered_part_closed', 'TM.C02_new_configuration', 'TM.C02_state_value_roundtrip', 'TM.C02_monitor_accepts_model')
+    theorems = ('TM.C02_inv_of_check', 'TM.C02_init', 'TM.C02_step_partial', 'TM.C02_step_clean', 'TM.C02_regression_stale_source', 'TM.C02_step_counterexample_run', 'TM.C02_step_counterexample', 'TM.C02_history', 'TM.C02_history_queued', 'TM.C02_step_exclusive', 'TM.C02_step_regions', 'TM.C02_step_global', 'TM.C02_history_regions', 'TM.C02_resolve_order', 'TM.C02_exit_children_first', 'TM.C02_enter_parents_first', 'TM.C02_entered_part_closed', 'TM.C02_new_configuration', 'TM.C02_state_value_roundtrip', 'TM.C02_monitor_accepts_model')
     rule = ('a case = (state tree, transition set, script, history); non-trivial iff at least one transition with a '
             'state change executed on HierarchicalMachine; distinct by the hash of the encoded case')
     trusted = (
